@@ -1,22 +1,10 @@
 // C16 - the status tracker equals a per-device, per-interface latest-message map (stateful model + bounded exhaustive).
-#include "../common/lib.h"
+#include "../common/status_ops.h"
 
 using namespace vf;
 
-struct Op
-{
-    uint8_t kind{0};  // 0 update(CM status), 1 update(IF status), 2 update(data packet), 3 removeDeviceById, 4 removeInterfaceById, 5 clear
-    uint16_t dev{0};
-    uint32_t iface{0};
-    uint8_t viaDecoder{0};
-    void io(Ar& a)
-    {
-        a.num("kind", kind);
-        a.num("dev", dev);
-        a.num("iface", iface);
-        a.num("viaDecoder", viaDecoder);
-    }
-};
+using Op = StatusOp;
+
 struct Case
 {
     std::vector<Op> ops;
@@ -31,71 +19,6 @@ struct ModelDevice
     Snap cm;
     std::map<uint32_t, Snap> ifaces;
 };
-
-static lib::Packet makeUpdate(const Op& op, size_t index)
-{
-    lib::Packet p;
-    uint8_t msgType = wire::kMtStatus;
-    Bytes raw;
-    uint8_t ptype = 0;
-    if (op.kind == 0)
-    {
-        lib::CaptureModulePayload cm;
-        cm.setUptime(1000 + index);
-        cm.setData("device " + std::to_string(op.dev), "sn" + std::to_string(index), "hw1", "sw" + std::to_string(index), {static_cast<uint8_t>(index)});
-        p.setPayload(cm);
-        raw.assign(cm.getRawPayload(), cm.getRawPayload() + cm.getLength());
-        ptype = wire::kPtCmStatus;
-    }
-    else if (op.kind == 1)
-    {
-        lib::InterfacePayload ip;
-        uint8_t ids[3] = {1, 2, static_cast<uint8_t>(index)};
-        ip.setData(ids, 3, nullptr, 0);
-        ip.setInterfaceId(op.iface);
-        ip.setMsgTotalRx(static_cast<uint32_t>(index));
-        ip.setInterfaceStatus(lib::InterfacePayload::InterfaceStatus::linkStatusUp);
-        p.setPayload(ip);
-        raw.assign(ip.getRawPayload(), ip.getRawPayload() + ip.getLength());
-        ptype = wire::kPtIfStatus;
-    }
-    else
-    {
-        lib::CanPayload can;
-        uint8_t d[2] = {static_cast<uint8_t>(index), 7};
-        can.setData(d, 2);
-        can.setId(0x100 + static_cast<uint32_t>(index));
-        p.setPayload(can);
-        raw.assign(can.getRawPayload(), can.getRawPayload() + can.getLength());
-        ptype = wire::kPtCan;
-        msgType = wire::kMtData;
-    }
-    p.setDeviceId(op.dev);
-    p.setStreamId(3);
-    p.setTimestamp(index);
-    p.setVendorId(static_cast<uint16_t>(index));
-    if (msgType == wire::kMtData)
-        p.setInterfaceId(op.iface);
-    if (op.viaDecoder)
-    {
-        // the real use: packets come out of the decoder
-        Bytes frame;
-        wire::CmpHdr h{1, 0, op.dev, msgType, 3, static_cast<uint16_t>(index)};
-        wire::putCmpHdr(frame, h);
-        wire::MsgHdr mh;
-        mh.timestamp = index;
-        mh.idWord = msgType == wire::kMtData ? op.iface : static_cast<uint32_t>(index & 0xFFFF);
-        mh.payloadType = ptype;
-        mh.length = static_cast<uint16_t>(raw.size());
-        wire::putMsgHdr(frame, mh);
-        wire::putBytes(frame, raw);
-        lib::Decoder dec;
-        auto got = decodeOwned(dec, frame);
-        if (got.size() == 1 && got[0] && got[0]->isValid())
-            return *got[0];
-    }
-    return p;
-}
 
 static Verdict compare(const lib::Status& st, const std::map<uint16_t, ModelDevice>& model, size_t opIndex)
 {
@@ -163,7 +86,7 @@ static Verdict runCase(const Case& c, Info& info)
             case 1:
             case 2:
             {
-                lib::Packet p = makeUpdate(op, i);
+                lib::Packet p = makeStatusUpdate(op, i);
                 Snap s = snap(p);
                 st.update(p);
                 if (op.kind == 0)
